@@ -231,6 +231,11 @@ func (g *G) priors(src *ty.Val) []*ty.Val {
 		if len(tp) > 4 {
 			out = append(out, g.vg.Inst(&ty.Val{K: ty.VPtr, Elems: []*ty.Val{tp[len(tp)-1]}}))
 		}
+		// every slice of the destination short, with spare capacity that holds stale elements (see rt.fillSpare): the
+		// copy grows such a slice into its capacity
+		if nv, changed := g.withShortSlices(u.Elem, tp[len(tp)-1]); changed {
+			out = append(out, g.vg.Inst(&ty.Val{K: ty.VPtr, Elems: []*ty.Val{nv}}))
+		}
 		// prior contents that cannot be removed key by key: a NaN key in every float-keyed map of the destination
 		if nv, changed := g.withNaNKeys(u.Elem, tp[len(tp)-1]); changed {
 			out = append(out, g.vg.Inst(&ty.Val{K: ty.VPtr, Elems: []*ty.Val{nv}}))
@@ -249,6 +254,63 @@ func (g *G) priors(src *ty.Val) []*ty.Val {
 		out = append(out, g.vg.Inst(&ty.Val{K: ty.VMap}))
 	}
 	return out
+}
+
+// withShortSlices returns a copy of v (a value of type t) in which every slice holds one element and has a spare
+// capacity of three (nil slices too).
+func (g *G) withShortSlices(t *ty.Ty, v *ty.Val) (*ty.Val, bool) { return g.reslice(t, v, 1, 3, 0) }
+
+// withLongSlices returns a copy of v in which every slice holds three elements (the first three of the element pool).
+func (g *G) withLongSlices(t *ty.Ty, v *ty.Val) (*ty.Val, bool) { return g.reslice(t, v, 3, 0, 0) }
+
+// off rotates the choice of elements, so that the elements of one slice differ from each other
+func (g *G) reslice(t *ty.Ty, v *ty.Val, n, spare, off int) (*ty.Val, bool) {
+	u := g.env.Under(t)
+	c := *v
+	c.Elems = append([]*ty.Val(nil), v.Elems...)
+	changed := false
+	sub := func(i int, et *ty.Ty) {
+		if nv, ch := g.reslice(et, c.Elems[i], n, spare, off); ch {
+			c.Elems[i], changed = nv, true
+		}
+	}
+	switch u.K {
+	case ty.Ptr:
+		if v.K == ty.VPtr {
+			sub(0, u.Elem)
+		}
+	case ty.Array:
+		if v.K == ty.VArr {
+			for i := range c.Elems {
+				sub(i, u.Elem)
+			}
+		}
+	case ty.Struct:
+		if v.K == ty.VStruct {
+			for i, f := range u.Fields {
+				sub(i, f.T)
+			}
+		}
+	case ty.Map:
+		if v.K == ty.VMap {
+			for i := 1; i < len(c.Elems); i += 2 {
+				sub(i, u.Elem)
+			}
+		}
+	case ty.Slice:
+		ep := g.vg.Pool(u.Elem)
+		es := make([]*ty.Val, n)
+		for i := range es {
+			e := ep[(len(ep)-1+i+off)%len(ep)]
+			if ne, ch := g.reslice(u.Elem, e, n, spare, off+i+1); ch {
+				e = ne
+			}
+			es[i] = e
+		}
+		c = ty.Val{K: ty.VSlice, Spare: spare, Elems: es}
+		changed = true
+	}
+	return &c, changed
 }
 
 // withNaNKeys returns a copy of v (a value of type t) in which every map keyed by a float type holds one more entry,
@@ -441,6 +503,20 @@ func (g *G) emitDeepCopy() {
 				if n++; n >= 3 {
 					break
 				}
+			}
+		}
+	}
+	// growing into spare capacity: every slice of the source long, every slice of the destination short with stale
+	// elements beyond its length
+	if u := g.env.Under(g.t); u.K == ty.Ptr {
+		tp := g.vg.Pool(u.Elem)
+		for k := 0; k < 2 && k < len(tp); k++ {
+			base := tp[len(tp)-1-k]
+			long, ch1 := g.withLongSlices(u.Elem, base)
+			short, ch2 := g.withShortSlices(u.Elem, base)
+			if ch1 && ch2 {
+				g.ow.op("deepcopy", g.tn, g.vg.Inst(&ty.Val{K: ty.VPtr, Elems: []*ty.Val{long}}).Wire(), g.vg.Inst(&ty.Val{K: ty.VPtr, Elems: []*ty.Val{short}}).Wire())
+				g.stats["c05:deepcopy-grow-into-spare"]++
 			}
 		}
 	}
